@@ -577,29 +577,31 @@ def model_term(case, desc, I):
         return "PO %s %s %s %s %s" % (dec_term(data, I), value_term(case, I), vr, ac, ver)
     if op == "store_add":
         if isinstance(data, list):
-            return "show_store_outcomes (store_add_list VAR REG clean_any SX RF nodec [] %s %s)" % (
+            return "show_store_outcomes (store_add_list VAR REG CLN SX RF nodec [] %s %s)" % (
                 common.coq_list([I.j(x) for x in data]), ver)
-        return "show_store_outcomes (store_add_one VAR REG clean_any SX RF %s [] %s %s)" % (dec_term(data, I), value_term(case, I), ver)
+        return "show_store_outcomes (store_add_one VAR REG CLN SX RF %s [] %s %s)" % (dec_term(data, I), value_term(case, I), ver)
     return None
 
 
 HELPERS = """Definition nodec : decoder := dec_table [].
 Definition tkey : ustring := u "t".
-Definition PV dec x ac io ver := show_MP (parse VAR REG clean_any SX RF dec x ac io ver).
-Definition PT tr ac io ver := show_MP (parse VAR REG clean_any SX RF (fun _ => tr) (JStr tkey) ac io ver).
-Definition PD x ac io ver := show_MP (dict_to_stix2 VAR REG clean_any SX RF nodec x false ac io ver).
-Definition PF tr ac io ver := show_MP (parse_file VAR REG clean_any SX RF nodec tr ac io ver).
-Definition PC dec c ac io x := show_MU (call_check (kw_of x) false ;;; construct VAR REG clean_any SX dec c ac io (kw_of x)).
-Definition PO dec x vr ac io ver := show_MP (parse_observable VAR REG clean_any SX RF dec x vr ac io ver).
-Definition POT tr vr ac io ver := show_MP (parse_observable VAR REG clean_any SX RF (fun _ => tr) (JStr tkey) vr ac io ver).
+Definition PV dec x ac io ver := show_MP (parse VAR REG CLN SX RF dec x ac io ver).
+Definition PT tr ac io ver := show_MP (parse VAR REG CLN SX RF (fun _ => tr) (JStr tkey) ac io ver).
+Definition PD x ac io ver := show_MP (dict_to_stix2 VAR REG CLN SX RF nodec x false ac io ver).
+Definition PF tr ac io ver := show_MP (parse_file VAR REG CLN SX RF nodec tr ac io ver).
+Definition PC dec c ac io x := show_MU (call_check (kw_of x) false ;;; construct VAR REG CLN SX dec c ac io (kw_of x)).
+Definition PO dec x vr ac io ver := show_MP (parse_observable VAR REG CLN SX RF dec x vr ac io ver).
+Definition POT tr vr ac io ver := show_MP (parse_observable VAR REG CLN SX RF (fun _ => tr) (JStr tkey) vr ac io ver).
 """
 
 
 def eval_model(tag, cases, desc, unguarded, shard=400, timeout=900, refuse=False, registry="live"):
     """evaluate the model on the cases (None for cases without a model term); per-shard headers carry the base objects"""
-    var = "Definition VAR : variant := unguarded_at (sites_named %s).\nDefinition RF : bool := %s.\nDefinition REG : registry := %s.\nDefinition SX : bool := %s.\n" % (
+    var = ("Definition VAR : variant := unguarded_at (sites_named %s).\nDefinition RF : bool := %s.\nDefinition REG : registry := %s.\nDefinition SX : bool := %s.\n"
+           "Definition CLN : cleaner := clean_struct 6 VAR REG SX %s.\n") % (
         common.coq_list([common.coq_str(t) for t in unguarded]), common.coq_bool(refuse), registry,
-        common.coq_bool(MODE["strict_unregistered_extension"]))
+        common.coq_bool(MODE["strict_unregistered_extension"]),
+        "all_classes_custom" if registry == "live_custom" else "all_classes")
     cases_dir = os.path.join(common.COQ, "Cases")
     os.makedirs(cases_dir, exist_ok=True)
     jobs = []
